@@ -59,7 +59,7 @@ PROPS = {
         "suites": ["c02"],
         "level": "proof",
         "proof_module": "GeoProofs.Props.C02",
-        "theorems": [],
+        "theorems": ["Geo.rect_intersects_rect_iff", "Geo.rect_intersects_rect_illformed", "Geo.rect_intersects_symm", "Geo.lineIntersectsLine_iff", "Geo.lineIntersectsLine_symm", "Geo.lineIntersectsLine_iff_mk", "Geo.point_intersects_iff", "Geo.point_intersects_line_iff", "Geo.point_intersects_rect_spec", "Geo.geom_intersects_symm_pointrect", "Geo.geom_intersects_dispatch_symm", "Geo.geom_intersects_symm_partial", "Geo.ringIntersectsSegment_sound", "Geo.ringIntersectsSegment_sound_mk", "Geo.vertex_on_segment", "Geo.ringIntersectsLine_sound", "Geo.ringIntersectsRing_sound"],
         "trivial_sigs": set(),
         "rule": "sampled (thorough: all) ordered pairs of small shapes on the 3x3 lattice; generated polygons (rectangles, notched, "
                 "star-shaped, with holes) against probes built from their vertices, edge midpoints and nearby lattice points, both operand "
@@ -69,13 +69,13 @@ PROPS = {
         "suites": ["c03"],
         "level": "proof",
         "proof_module": "GeoProofs.Props.C03",
-        "theorems": [],
+        "theorems": ["Geo.line_walk_terminates", "Geo.line_containsLine_eq", "Geo.rect_contains_rect_iff", "Geo.rect_contains_rect_illformed", "Geo.rect_contains_point_iff", "Geo.rect_contains_point_spec", "Geo.point_contains_point_iff", "Geo.point_contains_rect_iff", "Geo.box_contains_seriesRect_iff", "Geo.rect_contains_line_iff", "Geo.rect_contains_line_empty", "Geo.rect_contains_line_iff_onSeg", "Geo.rect_contains_poly_iff", "Geo.rect_contains_rectpoly", "Geo.seriesRect_eq_ptbox_iff", "Geo.point_contains_line_iff", "Geo.point_contains_poly_iff", "Geo.line_contains_point_iff", "Geo.line_contains_point_spec", "Geo.D4_wrong_true", "Geo.D4_wrong_false", "Geo.D5_wrong_true", "Geo.D5_wrong_false", "Geo.D13_wrong_true"],
         "trivial_sigs": set(),
         "rule": "as C02, plus ring-level contains/intersects-segment exports; non-trivial = distinct pair judged by the exact oracle",
     },
     "C05": {
         "suites": ["c05docs", "c05obj"],
-        "level": "proof", "proof_module": "GeoProofs.Props.C05", "theorems": [],
+        "level": "proof", "proof_module": "GeoProofs.Props.C05", "theorems": ["Geo.parse_fuel_sufficient", "Geo.parseTop_total", "Geo.parseTop_unmodelled_only_string_radius", "Geo.parse_extraOK", "Geo.write_some_of_extraOK", "Geo.parse_then_write_no_panic"],
         "trivial_sigs": set(),
         "rule": "outcomes (value / error enum / panic / timeout) of Parse on grammar-generated documents, structured mutations, arbitrary bytes, "
                 "truncations and splices, and of every query method on ordered pairs of objects of all kinds (empty collections, zero-length "
@@ -83,7 +83,7 @@ PROPS = {
     },
     "C06": {
         "suites": ["c06"],
-        "level": "proof", "proof_module": "GeoProofs.Props.C06", "theorems": [],
+        "level": "proof", "proof_module": "GeoProofs.Props.C06", "theorems": ["Geo.render_writeV", "Geo.written_tokOK", "Geo.reparse_ok_partial", "Geo.reparse_ok_partial_lineString", "Geo.geometry_preserved", "Geo.lineCoords_roundtrip", "Geo.polyCoords_roundtrip", "Geo.feature_has_properties", "Geo.members_preserved_partial", "Geo.isRectRing_rectRing"],
         "trivial_sigs": set(),
         "rule": "grammar-generated accepted documents (9 types + Circle convention, nesting, 2-4-D and mixed positions, duplicate/escaped keys, "
                 "foreign members, whitespace) under random options: implementation JSON compared byte-for-byte with the model's writer, and the "
@@ -92,14 +92,14 @@ PROPS = {
     },
     "C07": {
         "suites": ["c07"],
-        "level": "proof", "proof_module": "GeoProofs.Props.C07", "theorems": [],
+        "level": "proof", "proof_module": "GeoProofs.Props.C07", "theorems": ["Geo.defect_rejected", "Geo.wf_accepted_partial", "Geo.wf_accepted_counterexample", "Geo.wf_decoded"],
         "trivial_sigs": set(),
         "rule": "well-formed documents must be accepted (and decode as the reference reader says), documents with one of the listed structural "
                 "defects must be rejected; plus arbitrary bytes; non-trivial = distinct document",
     },
     "C08": {
         "suites": ["c08"],
-        "level": "proof", "proof_module": "GeoProofs.Props.C08", "theorems": [],
+        "level": "proof", "proof_module": "GeoProofs.Props.C08", "theorems": ["Geo.index_opts_accept_same", "Geo.index_opts_error_same", "Geo.index_opts_obsEq", "Geo.obsEq_write", "Geo.obsEq_attrs", "Geo.allowSimplePoints_write", "Geo.requireValid_filter", "Geo.allowRects_write_partial", "Geo.allowRects_write_counterexample"],
         "trivial_sigs": set(),
         "rule": "each document parsed under a matrix of option sets (index thresholds 0,1,n,n+1,64 x both kinds; simple points; rects): JSON, "
                 "attributes and predicate answers against probe objects must be identical across the matrix; require-valid judged as a filter",
@@ -146,7 +146,8 @@ PROPS = {
     },
     "C17": {
         "suites": ["c17"],
-        "level": "proof", "proof_module": "GeoProofs.Props.C17", "theorems": [],
+        "level": "proof", "proof_module": "GeoProofs.Props.C17", "theorems": ["Geo.render_is_json", "Geo.write_is_json", "Geo.write_type", "Geo.write_coords_depth", "Geo.nonfinite_written_as_null", "Geo.append_prefix", "Geo.featureExtra_ok", "Geo.featureExtra_writeOK", "Geo.exFeature_writeOK", "Geo.DispatchFacts.dispatch_table_pinned", "Geo.DispatchFacts.json_wrappers"],
+        "translators": [{"name": "dispatch", "out": "Dispatch.lean"}],
         "trivial_sigs": set(),
         "rule": "objects from every public constructor with special floats (NaN, +-Inf, -0, extremes, denormals), feature member texts (objects, "
                 "blank objects, non-objects, reserved key 'feature'), nested collections: JSON()/String()/MarshalJSON()/AppendJSON(nil) equal, "
@@ -181,7 +182,7 @@ PROPS = {
         "suites": ["c12"],
         "level": "proof",
         "proof_module": "GeoProofs.Props.C12",
-        "theorems": [],
+        "theorems": ["Geo.raycast_translate", "Geo.raycast_scale", "Geo.raycast_translate_eq", "Geo.raycast_scale_eq", "Geo.segIntersectsS_translate", "Geo.segIntersectsS_scale", "Geo.segIntersects_translate", "Geo.segIntersects_scale", "Geo.collinearPt_translate", "Geo.collinearPt_scale", "Geo.segContainsSeg_translate", "Geo.segContainsSeg_scale", "Geo.onSeg_reflX", "Geo.onSeg_reflY", "Geo.onSeg_transpose", "Geo.segsMeet_reflX", "Geo.segsMeet_reflY", "Geo.segsMeet_transpose", "Geo.raycast_on_reflX", "Geo.raycast_on_reflY", "Geo.raycast_on_transpose", "Geo.segIntersects_reflX", "Geo.segIntersects_reflY", "Geo.segIntersects_transpose", "Geo.segContainsSeg_reflX", "Geo.segContainsSeg_reflY", "Geo.segContainsSeg_transpose", "Geo.lineIntersectsLine_of_symm", "Geo.lineIntersectsLine_reflX", "Geo.lineIntersectsLine_reflY", "Geo.lineIntersectsLine_transpose", "Geo.lineContainsPoint_of_symm", "Geo.lineContainsPoint_reflX", "Geo.lineContainsPoint_reflY", "Geo.lineContainsPoint_transpose", "Geo.raycast_inn_reflX_counterexample", "Geo.processPoints_translate", "Geo.processPoints_scale", "Geo.processPoints_map_empty", "Geo.convexSpec_reflX", "Geo.convexSpec_reflY", "Geo.convexSpec_transpose", "Geo.clockwiseSpec_reflX", "Geo.clockwiseSpec_reflY", "Geo.clockwiseSpec_transpose", "Geo.processPoints_reflX", "Geo.processPoints_reflY", "Geo.processPoints_transpose", "Geo.ringContainsPoint_translate", "Geo.ringContainsPoint_scale", "Geo.ringContainsPoint_translate_hit", "Geo.ringContainsPoint_scale_hit", "Geo.ringContainsSegment_aff", "Geo.ringIntersectsSegment_aff", "Geo.ringContainsRing_aff", "Geo.ringIntersectsRing_aff", "Geo.ringIntersectsLine_aff", "Geo.line_containsLineO_aff", "Geo.geom_contains_aff", "Geo.geom_intersects_aff", "Geo.geom_contains_translate", "Geo.geom_intersects_translate", "Geo.geom_contains_scale", "Geo.geom_intersects_scale", "Geo.raycast_inn_neg_scale_counterexample"],
         "trivial_sigs": set(),
         "rule": "generated pairs under translation (also via Move), scaling by 2,4,1024, reflection in x, in y, transposition, every "
                 "rotation of the start vertex, reversal, dropped closing vertex: answers within a group must be identical",
